@@ -491,6 +491,17 @@ func (resp *Response) bodyBuffer() *bytebufferpool.ByteBuffer {
 	return resp.body
 }
 
+// bodyBufferAppend returns the body buffer for appending to the current body:
+// a body set via SetBodyRaw is copied into the buffer first instead of being dropped.
+func (resp *Response) bodyBufferAppend() *bytebufferpool.ByteBuffer {
+	raw := resp.bodyRaw
+	bodyBuf := resp.bodyBuffer()
+	if raw != nil {
+		bodyBuf.Set(raw)
+	}
+	return bodyBuf
+}
+
 func (req *Request) bodyBuffer() *bytebufferpool.ByteBuffer {
 	if req.body == nil {
 		req.body = requestBodyPool.Get()
@@ -763,14 +774,14 @@ func (resp *Response) BodyWriteTo(w io.Writer) error {
 //
 // It is safe re-using p after the function returns.
 func (resp *Response) AppendBody(p []byte) {
-	resp.closeBodyStream(nil)  //nolint:errcheck
-	resp.bodyBuffer().Write(p) //nolint:errcheck
+	resp.closeBodyStream(nil)        //nolint:errcheck
+	resp.bodyBufferAppend().Write(p) //nolint:errcheck
 }
 
 // AppendBodyString appends s to response body.
 func (resp *Response) AppendBodyString(s string) {
-	resp.closeBodyStream(nil)        //nolint:errcheck
-	resp.bodyBuffer().WriteString(s) //nolint:errcheck
+	resp.closeBodyStream(nil)              //nolint:errcheck
+	resp.bodyBufferAppend().WriteString(s) //nolint:errcheck
 }
 
 // SetBody sets response body.
